@@ -136,9 +136,10 @@ impl RelA {
 #[derive(Clone, Debug)]
 pub struct RelB {
     pub c: u64,
+    pub arch: ZkStdLibArch,
 }
 
-pub fn arch_all() -> ZkStdLibArch {
+pub fn arch_wide() -> ZkStdLibArch {
     ZkStdLibArch {
         jubjub: true,
         poseidon: true,
@@ -149,7 +150,9 @@ pub fn arch_all() -> ZkStdLibArch {
         blake2b: true,
         secp256k1: true,
         bls12_381: true,
-        base64: true,
+        // an enabled but unused base64 chip makes the honest prover fail (its lookup has no
+        // loaded table), so it stays off
+        base64: false,
         automaton: true,
         nr_pow2range_cols: 4,
     }
@@ -180,13 +183,16 @@ impl Relation for RelB {
         std_lib.assert_true(layouter, &lt)
     }
     fn used_chips(&self) -> ZkStdLibArch {
-        arch_all()
+        self.arch
     }
     fn write_relation<W: io::Write>(&self, w: &mut W) -> io::Result<()> {
-        wr_u64(w, self.c)
+        wr_u64(w, self.c)?;
+        self.arch.write(w)
     }
     fn read_relation<R: io::Read>(r: &mut R) -> io::Result<Self> {
-        rd_u64(r).map(|c| RelB { c })
+        let c = rd_u64(r)?;
+        let arch = ZkStdLibArch::read(r)?;
+        Ok(RelB { c, arch })
     }
 }
 
@@ -202,7 +208,9 @@ impl RelB {
 }
 
 pub const REL_A: RelA = RelA { c: 7 };
-pub const REL_B: RelB = RelB { c: 11 };
+pub fn rel_b() -> RelB {
+    RelB { c: 11, arch: arch_wide() }
+}
 
 // ---------------------------------------------------------------------------------------------
 // Fam (bare plonk VerifyingKey)
@@ -619,12 +627,13 @@ pub fn build_bundle(seed: u64, full: bool) -> Result<Bundle, String> {
     let mut b = Bundle::new();
     let (ia, wa) = REL_A.honest(seed);
     std_rel_blobs(&mut b, "A", &REL_A, &ia, wa, seed, full)?;
-    let (ib, wb) = REL_B.honest(seed);
-    std_rel_blobs(&mut b, "B", &REL_B, &ib, wb, seed, false)?;
+    let rb = rel_b();
+    let (ib, wb) = rb.honest(seed);
+    std_rel_blobs(&mut b, "B", &rb, &ib, wb, seed, false)?;
 
     // architecture descriptor on its own
     let mut v = vec![];
-    arch_all().write(&mut v).map_err(|e| e.to_string())?;
+    arch_wide().write(&mut v).map_err(|e| e.to_string())?;
     b.insert("arch".into(), v);
 
     // IR programs
